@@ -13,7 +13,7 @@
     not used afterwards (the Go code shares its nodes with the receiver).
     Min and max orientation are the same theorem: it holds for every comparator satisfying
     [TotalOrder], and the reversed comparator satisfies it too ([C04_reverse_comparator]). *)
-From Algo.C04 Require Import Model Spec ProofsCommon Proofs.
+From Algo.C04 Require Import Model Spec ProofsCommon ProofsMaxDeg Proofs.
 Open Scope Z_scope.
 
 (** Binary heap: every history, every initial size, every total-order comparator. *)
@@ -31,6 +31,22 @@ Theorem C04_simulates_binomial :
     well_scoped K V true (all_live sizes) ops = true ->
     accepts K V cmp eqv (empty_bags sizes) ops (run K V cmp eqv Binomial sizes ops).
 Proof. intros K V cmp eqv TO. exact (binomial_simulates cmp eqv TO). Qed.
+
+(** Fibonacci heap: every history on a pool of heaps, including [Merge]; in particular
+    [consolidate] never leaves its fuel ([OHang]) and never indexes outside the degree table
+    of size [maxDegree(n)] ([OPanic]). *)
+Theorem C04_simulates_fibonacci :
+  forall (K V : Type) (cmp : K -> K -> Z) (eqv : V -> V -> bool), TotalOrder K cmp ->
+  forall (sizes : list nat) (ops : list (hop K V)),
+    well_scoped K V true (all_live sizes) ops = true ->
+    accepts K V cmp eqv (empty_bags sizes) ops (run K V cmp eqv Fibonacci sizes ops).
+Proof. intros K V cmp eqv TO. exact (fibonacci_simulates cmp eqv TO). Qed.
+
+(** The degree table suffices: a tree of degree [d] has at least [2^d] nodes (no cuts in the
+    non-indexed heap) and [maxDegree(n) = 1 + max {d | φ^d <= n} > log2 n]. *)
+Theorem C04_degree_table_bound :
+  forall d n : nat, (2 ^ d <= n)%nat -> (d < max_degree n)%nat.
+Proof. exact ProofsMaxDeg.maxdeg_ok. Qed.
 
 (** The max orientation is an instance: the reversed comparator is a total order again. *)
 Theorem C04_reverse_comparator :
@@ -53,7 +69,24 @@ Example C04_example :
   = [ONone; ONone; ONone; OEntry (Some (1, 10)); OEntry (Some (1, 10)); ONat 2; OBool true; OBool false]%nat.
 Proof. vm_compute. reflexivity. Qed.
 
+(** … and one with two mergeable heaps: ties, Merge, consolidation, for both implementations. *)
+Example C04_example_merge :
+  let ops := [(0, Insert 3 30); (0, Insert 1 10); (1, Insert 1 11); (1, Insert 2 20); (1, Insert 5 50);
+              (0, Merge 1); (0, Size); (0, Delete); (0, Delete); (0, Peek); (0, ContainsKey 5);
+              (0, ContainsValue 10); (0, IsEmpty)]%nat in
+  let cmpn := fun a b => Z.of_nat a - Z.of_nat b in
+  well_scoped nat nat true (all_live [0; 0]%nat) ops = true /\
+  run nat nat cmpn Nat.eqb Binomial [0; 0]%nat ops
+  = [ONone; ONone; ONone; ONone; ONone; ONone; ONat 5; OEntry (Some (1, 10)); OEntry (Some (1, 11));
+     OEntry (Some (2, 20)); OBool true; OBool false; OBool false]%nat /\
+  run nat nat cmpn Nat.eqb Fibonacci [0; 0]%nat ops
+  = [ONone; ONone; ONone; ONone; ONone; ONone; ONat 5; OEntry (Some (1, 10)); OEntry (Some (1, 11));
+     OEntry (Some (2, 20)); OBool true; OBool false; OBool false]%nat.
+Proof. vm_compute. repeat split. Qed.
+
 Print Assumptions C04_simulates_binary.
 Print Assumptions C04_simulates_binomial.
+Print Assumptions C04_simulates_fibonacci.
+Print Assumptions C04_degree_table_bound.
 Print Assumptions C04_reverse_comparator.
 Print Assumptions C04_acceptor_sound.
